@@ -209,7 +209,10 @@ func H_C08_LeaveDelivers() {
 	selfInc := vU32()
 	vAssume(selfInc < 0xFFFFFFF0)
 	f.vAddSelf(selfInc, nil)
-	f.vAddConcreteAlive(vPeerA, 2).PMax = 2
+	peer := f.vAddConcreteAlive(vPeerA, 2)
+	peer.PMax = 2
+	// the only other member may be one we currently suspect: it is still a member and still gossiped to
+	peer.State = []NodeStateType{StateAlive, StateSuspect}[vPick(2)]
 	rounds := vPick(6) // how many gossip rounds happen before the timeout
 	var res error
 	done := false
